@@ -172,72 +172,7 @@ func ruleSinkUse(ctx *Ctx, r *Report, fn *ssa.Function, sc sinkCreation) {
 	if sc.ch == nil {
 		return
 	}
-	// G5: Render(...) -> close(ch) -> wg.Wait()
-	var renders, closes, waits []ssa.Instruction
-	allInstrs(fn, func(b *ssa.BasicBlock, ins ssa.Instruction) {
-		c, ok := ins.(*ssa.Call)
-		if !ok {
-			return
-		}
-		if c.Call.IsInvoke() && c.Call.Method.Name() == "Render" {
-			renders = append(renders, c)
-		}
-		if bi, ok := c.Call.Value.(*ssa.Builtin); ok && bi.Name() == "close" && len(c.Call.Args) == 1 && c.Call.Args[0] == sc.ch {
-			closes = append(closes, c)
-		}
-		if isWaitGroupCall(c, "Wait") {
-			waits = append(waits, c)
-		}
-	})
-	if len(renders) == 0 {
-		// a producer other than a renderer (e.g. a mesh saver) still has to close and wait
-		renders = []ssa.Instruction{sc.call}
-	}
-	isClose := func(x ssa.Instruction) bool {
-		for _, c := range closes {
-			if c == x {
-				return true
-			}
-		}
-		return false
-	}
-	isWait := func(x ssa.Instruction) bool {
-		for _, w := range waits {
-			if w == x {
-				return true
-			}
-		}
-		return false
-	}
-	for i, rd := range renders {
-		r.check("G5", fmt.Sprintf("%s|close-after-render#%d", key, i+1), rd.Pos(), everyPathHits(rd, isClose),
-			"every path from Render to return must close the sink channel (the sink goroutine never ends otherwise)")
-	}
-	okW := len(closes) > 0
-	for _, c := range closes {
-		if !everyPathHits(c, isWait) {
-			okW = false
-		}
-	}
-	r.check("G5", key+"|wait-after-close", sc.call.Pos(), okW, "every path from close(output) to return must pass wg.Wait() (the file is complete only then)")
-	noEarly := true
-	for _, w := range waits {
-		// a Wait that can execute before the close would deadlock: the sink is still draining
-		for _, rd := range renders {
-			if precedes(rd, w) || rd.Block() == w.Block() {
-				// w is after render: is there a close before it on every path?
-				hit := false
-				for _, c := range closes {
-					if precedes(c, w) {
-						hit = true
-					}
-				}
-				if !hit {
-					noEarly = false
-				}
-			}
-		}
-	}
-	r.check("G5", key+"|no-wait-before-close", sc.call.Pos(), noEarly, "wg.Wait() before close(output) waits for a goroutine that is still draining: deadlock")
+	// G5: Render(...) -> close(ch) -> wg.Wait(), helper-aware (shared with C11/B4)
+	ruleSinkOrder(ctx, r, "G5", fn, sc)
 	_ = strings.TrimSpace
 }
